@@ -21,3 +21,4 @@ contract("shexer.utils.target_elements:tune_target_classes_if_needed",
     loops={0: {"invariant": ["len(result) == _i0", "forall(Int, lambda j: implies(0 <= j and j < _i0, result[j] == %s))" % ONE]}},
     ghost={"__locals__": {"result": List(Str)}}, props=["C10", "C02"],
     note="one output per requested class, in order: <IRI> loses its corners, anything else is expanded with THIS call's prefix table (no state survives the call)")
+
